@@ -1,6 +1,7 @@
 """C07 - seeded binary segmentation reports exactly the greedy above-threshold splits."""
 import numpy as np
 
+from vf import history as H
 from vf import instrument as I
 from vf.core import CaseTimeout, digest, time_limit
 from vf.gen import gen_data
@@ -58,7 +59,8 @@ def make_recipe(rng, tier):
         X = np.round(2 * X)
     elif rng.random() < 0.2:
         X = X * float(rng.choice([1e-3, 1e-5, 1e-7]))  # the same signal in a small unit of measurement
-    return {"det": spec, "X": X, "data_kind": kind, "int_dtype": int_dtype}
+    return {"det": spec, "X": X, "data_kind": kind, "int_dtype": int_dtype, "history": H.pick(rng),
+            "hseed": int(rng.integers(2 ** 31)), "frame": "df" if rng.random() < 0.5 else None}
 
 
 def fresh_score(spec_cs, X):
@@ -88,8 +90,10 @@ def exec_case(ctx, r):
     I.drain()
     try:
         with time_limit(60):
-            det = build(spec).fit(X)
-            y = det.predict(X)
+            # the judged predict comes after a history (vf/history.py); Xarg holds exactly X's values
+            det, Xarg = H.prepare(build(spec), X, r.get("history"), r.get("hseed", 0), 2 * msl, r.get("frame"))
+            y = det.predict(Xarg)
+            ctx.stat(f"history[{r.get('history')}]")
     except CaseTimeout:
         ctx.stat("case_timeouts")
         return
@@ -172,8 +176,8 @@ def exec_case(ctx, r):
             ctx.violation(sub, "uncovered-interval", f"{label}: interval [{st[i]},{en[i]}) scores {sc[i]} > "
                           f"{thr} but holds no changepoint ({cp})", r)
             break
-    # raising the threshold can only remove changepoints
-    if kw["threshold_scale"] is not None:
+    # raising the threshold can only remove changepoints (both thresholds from X's own shape)
+    if kw["threshold_scale"] is not None and r.get("history") != "fit_other":
         try:
             s2 = kw["threshold_scale"] * float(np.random.default_rng(len(cp) + n).choice([1.3, 2.0, 4.0])) + 0.05
             d2 = build({"cls": spec["cls"], "kw": dict(kw, threshold_scale=s2)}).fit(X)
